@@ -12,8 +12,9 @@
 (* result and run to its terminal state; the event is accepted when the    *)
 (* observation is one the terminal state allows (Match).  Independently    *)
 (* the property (DeniedStaysDark, ClippedOutside, ContentInside, InfoGate) *)
-(* is evaluated on every recorded observation itself (ObsOK).  The         *)
-(* geometries of a batch are the constant GeomTab.  Batch acceptance by    *)
+(* is evaluated on every recorded observation itself (ObsOK).  Every event *)
+(* carries the geometries its callback result refers to (geoms); the       *)
+(* invariant TypeOK checks them to be well formed.  Batch acceptance by    *)
 (* POSTCONDITION.                                                          *)
 (***************************************************************************)
 EXTENDS Auth, Json, IOUtils, TLCExt
@@ -22,7 +23,7 @@ Batch == JsonDeserialize(IOEnv.TRACE_FILE)
 N == Len(Batch)
 
 VARIABLES tid, obs
-tvars == <<req, cb, pc, actual, authz, cov, out, path, tid, obs>>
+tvars == <<req, cb, pc, actual, authz, cov, out, path, geo, combine, tid, obs>>
 
 SetOf(s) == {s[i] : i \in 1 .. Len(s)}
 Seq2(s) == <<s[1], s[2]>>
@@ -38,6 +39,10 @@ CbOf(e) == [authorized |-> e.authorized,
                           IN [map |-> row[2], featureinfo |-> row[3], tile |-> row[4], lim |-> row[5]]],
             glob |-> e.glob]
 
+\* the geometries of the event: object id -> {xs, ys, cells: [[i, j], ...]}
+GeoOf(gs) == [id \in DOMAIN gs |-> [xs |-> SeqOf(gs[id].xs), ys |-> SeqOf(gs[id].ys),
+                                    cells |-> {<<gs[id].cells[k][1], gs[id].cells[k][2]>> : k \in 1 .. Len(gs[id].cells)}]]
+
 \* the observation as a response record of Auth (what was seen is what "may" have been produced)
 ObsOut(o) == [status |-> o.status, ups_must |-> SetOf(o.ups), ups_may |-> SetOf(o.ups),
               px |-> [j \in 1 .. Len(o.px) |-> [i \in 1 .. Len(o.px[j]) |-> o.px[j][i]]],
@@ -45,6 +50,12 @@ ObsOut(o) == [status |-> o.status, ups_must |-> SetOf(o.ups), ups_may |-> SetOf(
               list_must |-> SetOf(o.listing), list_may |-> SetOf(o.listing)]
 
 Pure(m) == m \in {1, 2, 4, 8, 16}
+\* jpeg answers: chroma subsampling and ringing blend colours over two pixels; an unclassifiable colour (code 0) is accepted
+\* where the allowed values are not one and the same value in the 5x5 neighbourhood
+Smooth(r, i, j) ==
+  /\ Pure(r.px[j][i])
+  /\ \A jj \in (j - 2) .. (j + 2) : \A ii \in (i - 2) .. (i + 2) :
+        (jj \in 1 .. Len(r.px) /\ ii \in 1 .. Len(r.px[j])) => r.px[jj][ii] = r.px[j][i]
 Match(o, r) ==
   /\ o.status = r.status
   /\ r.ups_must \subseteq SetOf(o.ups) /\ SetOf(o.ups) \subseteq r.ups_may
@@ -56,7 +67,7 @@ Match(o, r) ==
        /\ \A i \in 1 .. Len(o.px[j]) :
             LET c == o.px[j][i] IN
             \/ c \in {1, 2, 4, 8, 16} /\ (r.px[j][i] \div c) % 2 = 1
-            \/ c = 0 /\ o.lossy /\ ~Pure(r.px[j][i])      \* jpeg: a blend in the boundary band
+            \/ c = 0 /\ o.lossy /\ ~Smooth(r, i, j)
 
 \* the property on the observation alone (req and cb are the recorded ones)
 ObsOK(o) == LET r == ObsOut(o) IN
@@ -73,21 +84,25 @@ TraceInit ==
     /\ tid = t /\ obs = B[t].obs
     /\ req = ReqOf(B[t].req) /\ cb = CbOf(B[t].cb)
     /\ pc = "start" /\ actual = <<>> /\ authz = [all |-> FALSE, lims |-> <<>>] /\ cov = {} /\ out = NoOut /\ path = <<>>
+    /\ geo = GeoOf(B[t].geoms) /\ combine \in CombineChoices
 
 \* the property is evaluated on the observation in the first step (req and cb are state by then)
 TraceNext ==
   /\ Next
   /\ UNCHANGED <<tid, obs>>
   /\ (pc = "start" /\ ~ObsOK(obs)) => TLCSet(2, TLCGet(2) \cup {tid})
-  /\ (pc' = "done" /\ Match(obs, out')) => TLCSet(1, TLCGet(1) \cup {tid})
+  /\ (pc' = "done" /\ Match(obs, out')) => TLCSet(IF combine THEN 3 ELSE 1, TLCGet(IF combine THEN 3 ELSE 1) \cup {tid})
 
 TraceSpec == TraceInit /\ [][TraceNext]_tvars
 
-ASSUME TLCSet(1, {}) /\ TLCSet(2, {})
+ASSUME TLCSet(1, {}) /\ TLCSet(2, {}) /\ TLCSet(3, {})
 
+\* register 1: events accepted by the model of the code as found, 3: by the model with both limits applied,
+\* 2: events whose observation violates the property
 TraceAccepted ==
   /\ PrintT(<<"accepted", TLCGet(1)>>)
+  /\ PrintT(<<"accepted_combined", TLCGet(3)>>)
   /\ PrintT(<<"obsbad", TLCGet(2)>>)
-  /\ TLCGet(1) = 1 .. N
+  /\ TLCGet(1) \cup TLCGet(3) = 1 .. N
   /\ TLCGet(2) = {}
 =============================================================================
